@@ -744,6 +744,61 @@ func main() {
 		}
 	}
 
+	// E3. range headers: = versus := with one and two targets, the targets read after the loop
+	for _, src := range []string{
+		"a = 100; for a = range v { y += a }; a", "a = 100; for a := range v { y += a }; a",
+		"for a = range v { y += a }; y", "for a := range v { y += a }",
+		"a = 100; b = 200; for a, b = range v { y += b }; a + b", "a = 100; b = 200; for a, b := range v { y += b }; a + b",
+		"for a, b = range v { y += b }; y", "for a, b := range v { x += a; y += b }; x + y",
+		"for a = range h { x++ }; x", "for a, b = range h.j.m { y += b }; b",
+		"top: for a = range v { if a == 2 { break top }; y += a }; a",
+		"for a = range v { }", "for a, b = range v { }; b", "for a := range v { }",
+	} {
+		g.parseCase(src, true, "for-range-def-set")
+	}
+
+	// E4. index contents of every token length 0..3 (thorough 4) over a small alphabet: v[ ... ]
+	salpha := []string{"a", "1", "+", "++", "--", "not", "b", "[0]", "-", ":", "x"}
+	smax := 3
+	if thorough {
+		smax = 4
+	}
+	for n := 0; n <= smax; n++ {
+		idx := make([]int, n)
+		for {
+			parts := make([]string, n)
+			for i := range idx {
+				parts[i] = salpha[idx[i]]
+			}
+			c := strings.Join(parts, " ")
+			g.parseCase("v["+c+"]", n <= 2, fmt.Sprintf("index-content%d", n))
+			if n == 2 {
+				g.parseCase("y = v["+c+"] ; x", true, "index-content-assign")
+			}
+			k := n - 1
+			for k >= 0 {
+				idx[k]++
+				if idx[k] < len(salpha) {
+					break
+				}
+				idx[k] = 0
+				k--
+			}
+			if k < 0 {
+				break
+			}
+		}
+	}
+	if !thorough {
+		for i := 0; i < 800; i++ {
+			parts := make([]string, 4)
+			for j := range parts {
+				parts[j] = salpha[rng.Intn(len(salpha))]
+			}
+			g.parseCase("v["+strings.Join(parts, " ")+"]", false, "index-content4-random")
+		}
+	}
+
 	// F. spacing around operators, with the lexer's sign rule
 	operands := []string{"a", "b", "1", "2", "c"}
 	gapsets := [][2]string{{" ", " "}, {"", ""}, {" ", ""}, {"", " "}}
